@@ -1,4 +1,7 @@
 import WM.Lemmas.CodecGroup
+import WM.Lemmas.CodecPool
+import WM.Lemmas.CodecWF
+import WM.Props.C10
 /-!
 # C10 — value codecs of `formats.py` and term vectors
 
@@ -59,12 +62,6 @@ theorem values_characters (f32 : Rat → Rat) (fb : Rat) (toks : List Token) :
   simp only [List.map_map, Function.comp_def] at h
   simp [postingSpec, valueAgrees, decodeFrequency, encodeChars]
   exact ⟨by simpa [encodeChars] using h.2, by simpa [encodeChars] using h.1⟩
-
-theorem zip_map_map {α β γ : Type} (l : List α) (f : α → β) (g : α → γ) :
-    (l.map f).zip (l.map g) = l.map fun a => (f a, g a) := by
-  induction l with
-  | nil => rfl
-  | cons a l ih => simp [ih]
 
 theorem values_positionBoosts (f32 : Rat → Rat) (fb : Rat) (toks : List Token) :
     ∀ x ∈ wordValues f32 .positionBoosts fb toks,
@@ -236,5 +233,282 @@ example :
       = [(0, [0]), (1, [0, 3])] := by
   intro d0 d1
   refine ⟨by simp, by simp [d0, d1], by decide +kernel, by decide +kernel⟩
+
+
+/-- What one document contributes to the posting list of term `w` (model: its `word_values` item,
+    weight times the document's boost) against the spec: nothing iff the term does not occur in
+    the document, otherwise a post that matches `postingSpec` of the occurrences. -/
+theorem doc_post_spec (f32 : Rat → Rat) (fmt : Fmt) (fb : Rat) (w : String) (d : DocIn) :
+    ((occ d.toks w).isEmpty = true → docPost f32 fmt fb w d = none) ∧
+    ((occ d.toks w).isEmpty = false → ∃ p, docPost f32 fmt fb w d = some p ∧ p.term = w ∧
+      PostMatches fmt p (d.docnum, { postingSpec fmt fb (occ d.toks w) with
+        weight := (postingSpec fmt fb (occ d.toks w)).weight * d.boost })) := by
+  constructor
+  · intro he
+    have hnil : occ d.toks w = [] := by
+      cases h : occ d.toks w with
+      | nil => rfl
+      | cons a l => rw [h] at he; simp at he
+    have hnot : w ∉ distinctTexts d.toks := fun hm => occ_ne_nil_of_mem d.toks w hm hnil
+    unfold docPost
+    rw [find?_eq_none_of_forall]
+    · rfl
+    · intro x hx
+      simp only [beq_eq_false_iff_ne, ne_eq]
+      intro e
+      exact hnot ((mem_wordValues_fst f32 fmt fb d.toks w).mp ⟨x, hx, e⟩)
+  · intro he
+    have hmem : w ∈ distinctTexts d.toks := by
+      by_cases hm : w ∈ distinctTexts d.toks
+      · exact hm
+      · rw [occ_eq_nil_of_not_mem d.toks w hm] at he; simp at he
+    obtain ⟨x, hx, hxw⟩ := (mem_wordValues_fst f32 fmt fb d.toks w).mpr hmem
+    cases hf : (wordValues f32 fmt fb d.toks).find? (fun y => y.1 == w) with
+    | none =>
+      have := List.find?_eq_none.mp hf x hx
+      simp [hxw] at this
+    | some y =>
+      have hy : y ∈ wordValues f32 fmt fb d.toks := List.mem_of_find?_eq_some hf
+      have hyw : y.1 = w := by simpa using List.find?_some hf
+      have hv := values_all f32 fmt fb d.toks y hy
+      rw [hyw] at hv
+      refine ⟨{ term := y.1, docnum := d.docnum, weight := y.2.2.1 * d.boost, value := y.2.2.2 },
+        by simp [docPost, hf], hyw, rfl, ?_, ?_⟩
+      · simp only; rw [hv.2.1]
+      · simp only [valueAgrees] at hv ⊢
+        exact hv.2.2
+
+/-- **Term postings, model = spec.**  The posting list of a term as it reaches the postings writer
+    (`add_document` posts → sorted pool → `add_postings` grouping; documents in ascending number
+    order) lists exactly the documents `specPostings` lists, in the same order, each post matching
+    the spec posting (document number, weight including the document boost, decoded value). -/
+theorem term_postings_spec (f32 : Rat → Rat) (fmt : Fmt) (fb : Rat) (docs : List DocIn) (w : String)
+    (hs : docs.Pairwise (fun a b => a.docnum < b.docnum)) :
+    termPostings f32 fmt fb docs w = docs.filterMap (docPost f32 fmt fb w) ∧
+    Forall2 (PostMatches fmt) (termPostings f32 fmt fb docs w) (specPostings fmt fb docs w) := by
+  have heq := termPostings_eq f32 fmt fb docs w hs
+  refine ⟨heq, ?_⟩
+  rw [heq]
+  unfold specPostings
+  clear heq hs
+  induction docs with
+  | nil => exact Forall2.nil
+  | cons d docs ih =>
+    simp only [List.filterMap_cons]
+    obtain ⟨h1, h2⟩ := doc_post_spec f32 fmt fb w d
+    cases he : (occ d.toks w).isEmpty with
+    | true => simp only [h1 he, if_true]; exact ih
+    | false =>
+      obtain ⟨p, hp, _, hm⟩ := h2 he
+      simp only [hp, Bool.false_eq_true, if_false]
+      exact Forall2.cons hm ih
+
+/-- **Vector = transposed postings, on the model.**  For a document `d` of a collection given in
+    ascending document-number order, with the vector stored in the posting format: an item
+    `(t, weight, value)` of `d`'s vector (`vectorItems`, what `add_vector_items` receives) occurs
+    in the posting list of `t` (`termPostings`, what `add_postings` receives) at `d.docnum` with
+    the same value and the weight times `d`'s boost — and every post of `t` for `d.docnum` comes
+    from such a vector item.  (`add_document` applies the document boost to postings only; this is
+    the one difference between a vector and the transposed postings.) -/
+theorem vector_transpose_model (f32 : Rat → Rat) (fmt : Fmt) (fb : Rat) (docs : List DocIn) (d : DocIn)
+    (hd : d ∈ docs) (hs : docs.Pairwise (fun a b => a.docnum < b.docnum)) (t : String) :
+    (∀ wt v, (t, wt, v) ∈ vectorItems f32 fmt fb d.toks →
+      ({ term := t, docnum := d.docnum, weight := wt * d.boost, value := v } : Post)
+        ∈ termPostings f32 fmt fb docs t) ∧
+    (∀ p ∈ termPostings f32 fmt fb docs t, p.docnum = d.docnum →
+      ∃ wt, (t, wt, p.value) ∈ vectorItems f32 fmt fb d.toks ∧ p.weight = wt * d.boost) := by
+  rw [termPostings_eq f32 fmt fb docs t hs]
+  have hvi : ∀ item, item ∈ vectorItems f32 fmt fb d.toks ↔
+      ∃ x ∈ wordValues f32 fmt fb d.toks, (x.1, x.2.2.1, x.2.2.2) = item := by
+    intro item
+    unfold vectorItems
+    rw [List.mem_mergeSort, List.mem_map]
+  have hfind : ∀ x ∈ wordValues f32 fmt fb d.toks,
+      (wordValues f32 fmt fb d.toks).find? (fun y => y.1 == x.1) = some x := by
+    intro x hx
+    have hnd := wordValues_nodup f32 fmt fb d.toks
+    have hfl := filter_eq_find_toList (wordValues f32 fmt fb d.toks) (·.1) x.1 hnd
+    cases hf : (wordValues f32 fmt fb d.toks).find? (fun y => y.1 == x.1) with
+    | none =>
+      have := List.find?_eq_none.mp hf x hx
+      simp at this
+    | some y =>
+      rw [hf] at hfl
+      have hxm : x ∈ (wordValues f32 fmt fb d.toks).filter (fun y => y.1 == x.1) := by
+        simp [List.mem_filter, hx]
+      rw [hfl] at hxm
+      simp at hxm
+      rw [hxm]
+  constructor
+  · intro wt v hitem
+    obtain ⟨x, hx, hxe⟩ := (hvi _).mp hitem
+    simp only [Prod.mk.injEq] at hxe
+    obtain ⟨h1, h2, h3⟩ := hxe
+    rw [List.mem_filterMap]
+    refine ⟨d, hd, ?_⟩
+    unfold docPost
+    rw [← h1, hfind x hx]
+    simp [h2, h3]
+  · intro p hp hdn
+    rw [List.mem_filterMap] at hp
+    obtain ⟨d', hd', hp'⟩ := hp
+    have hdd : d' = d := by
+      by_cases he : d' = d
+      · exact he
+      · exfalso
+        have hnum : d'.docnum = d.docnum := by rw [← (docPost_docnum hp').1, hdn]
+        rcases List.mem_iff_getElem.mp hd' with ⟨i, hi, rfl⟩
+        rcases List.mem_iff_getElem.mp hd with ⟨j, hj, rfl⟩
+        have hij : i ≠ j := fun e => he (by subst e; rfl)
+        rcases Nat.lt_or_gt_of_ne hij with hlt | hlt
+        · have := List.pairwise_iff_getElem.mp hs i j hi hj hlt; omega
+        · have := List.pairwise_iff_getElem.mp hs j i hj hi hlt; omega
+    subst hdd
+    unfold docPost at hp'
+    cases hf : (wordValues f32 fmt fb d'.toks).find? (fun y => y.1 == t) with
+    | none => rw [hf] at hp'; cases hp'
+    | some x =>
+      rw [hf] at hp'
+      simp only [Option.map_some, Option.some.injEq] at hp'
+      subst hp'
+      have hxw : x.1 = t := by simpa using List.find?_some hf
+      refine ⟨x.2.2.1, ?_, rfl⟩
+      exact (hvi _).mpr ⟨x, List.mem_of_find?_eq_some hf, by simp [hxw]⟩
+
+/-- Value shapes: what `word_values` of each format puts into the posting value. -/
+theorem word_values_shape (f32 : Rat → Rat) (fmt : Fmt) (fb : Rat) (toks : List Token) :
+    ∀ x ∈ wordValues f32 fmt fb toks,
+      match fmt with
+      | .existence => x.2.2.2 = .empty
+      | .frequency => ∃ n, x.2.2.2 = .freq n
+      | _ => x.2.2.2 ≠ .empty ∧ ∀ n, x.2.2.2 ≠ .freq n := by
+  intro x hx
+  cases fmt <;>
+    simp only [wordValues, groupTokens_eq, List.map_map, List.mem_map, Function.comp_def] at hx <;>
+    obtain ⟨w, _, rfl⟩ := hx
+  · rfl
+  · exact ⟨_, rfl⟩
+  · simp [encodePositions]
+  · simp [encodeChars]
+  · simp [encodePosBoosts]
+  · simp [encodeCharBoosts]
+
+/-- **Formats ↔ block codec: `ValuesOk` holds for every shipped format.**  The value bytes of the
+    posts of a term (`pack_uint` header + pickled rest) are admissible for a block writer whose
+    `fixedsize` is the format's `fixed_value_size()`: none for `Existence`, exactly 4 bytes for
+    `Frequency`, never empty for the variable-size formats. -/
+theorem values_ok (f32 : Rat → Rat) (fmt : Fmt) (fb : Rat) (docs : List DocIn) (w : String)
+    (tail : FValue → Bytes) (lenOf : Int → Option Nat)
+    (hs : docs.Pairwise (fun a b => a.docnum < b.docnum)) :
+    ValuesOk fmt.fixedSize (toPostings tail lenOf (termPostings f32 fmt fb docs w)) ∧
+    InlineValuesOk fmt.fixedSize (toPostings tail lenOf (termPostings f32 fmt fb docs w)) := by
+  have hshape : ∀ p ∈ termPostings f32 fmt fb docs w, ∃ d : DocIn, ∃ x ∈ wordValues f32 fmt fb d.toks,
+      p.value = x.2.2.2 := by
+    intro p hp
+    rw [termPostings_eq f32 fmt fb docs w hs, List.mem_filterMap] at hp
+    obtain ⟨d, _, hp'⟩ := hp
+    unfold docPost at hp'
+    cases hf : (wordValues f32 fmt fb d.toks).find? (fun y => y.1 == w) with
+    | none => rw [hf] at hp'; cases hp'
+    | some x =>
+      rw [hf] at hp'
+      simp only [Option.map_some, Option.some.injEq] at hp'
+      exact ⟨d, x, List.mem_of_find?_eq_some hf, by rw [← hp']⟩
+  have hmem : ∀ q ∈ toPostings tail lenOf (termPostings f32 fmt fb docs w),
+      ∃ p ∈ termPostings f32 fmt fb docs w, q.value = p.value.toBytes tail := by
+    intro q hq
+    simp only [toPostings, List.mem_map] at hq
+    obtain ⟨p, hp, rfl⟩ := hq
+    exact ⟨p, hp, rfl⟩
+  cases fmt with
+  | existence =>
+    refine ⟨trivial, ?_⟩
+    intro q hq
+    obtain ⟨p, hp, hqv⟩ := hmem q hq
+    obtain ⟨d, x, hx, hpv⟩ := hshape p hp
+    have := word_values_shape f32 .existence fb d.toks x hx
+    simp only at this
+    rw [hqv, hpv, this]; rfl
+  | frequency =>
+    have : ∀ q ∈ toPostings tail lenOf (termPostings f32 .frequency fb docs w), q.value.length = 3 + 1 := by
+      intro q hq
+      obtain ⟨p, hp, hqv⟩ := hmem q hq
+      obtain ⟨d, x, hx, hpv⟩ := hshape p hp
+      obtain ⟨n, hn⟩ := word_values_shape f32 .frequency fb d.toks x hx
+      rw [hqv, hpv, hn]; rfl
+    exact ⟨this, this⟩
+  | positions =>
+    have hne := toBytes_ne_nil_of_shape tail _ (fun q hq => by
+      obtain ⟨p, hp, hqv⟩ := hmem q hq
+      obtain ⟨d, x, hx, hpv⟩ := hshape p hp
+      exact ⟨p.value, hqv, by rw [hpv]; exact word_values_shape f32 .positions fb d.toks x hx⟩)
+    exact ⟨hne, hne⟩
+  | characters =>
+    have hne := toBytes_ne_nil_of_shape tail _ (fun q hq => by
+      obtain ⟨p, hp, hqv⟩ := hmem q hq
+      obtain ⟨d, x, hx, hpv⟩ := hshape p hp
+      exact ⟨p.value, hqv, by rw [hpv]; exact word_values_shape f32 .characters fb d.toks x hx⟩)
+    exact ⟨hne, hne⟩
+  | positionBoosts =>
+    have hne := toBytes_ne_nil_of_shape tail _ (fun q hq => by
+      obtain ⟨p, hp, hqv⟩ := hmem q hq
+      obtain ⟨d, x, hx, hpv⟩ := hshape p hp
+      exact ⟨p.value, hqv, by rw [hpv]; exact word_values_shape f32 .positionBoosts fb d.toks x hx⟩)
+    exact ⟨hne, hne⟩
+  | characterBoosts =>
+    have hne := toBytes_ne_nil_of_shape tail _ (fun q hq => by
+      obtain ⟨p, hp, hqv⟩ := hmem q hq
+      obtain ⟨d, x, hx, hpv⟩ := hshape p hp
+      exact ⟨p.value, hqv, by rw [hpv]; exact word_values_shape f32 .characterBoosts fb d.toks x hx⟩)
+    exact ⟨hne, hne⟩
+
+/-- **End to end for one term: documents → postings → blocks → entries.**  Writing the posts of
+    term `w` (from the documents' `word_values`, through the pool and `add_postings`) with a block
+    writer configured for the format, and decoding the blocks, gives back exactly those posts
+    (ids, stored weights, value bytes) — and the posts match `specPostings`.  `ValuesOk` is
+    discharged by `values_ok`, not assumed. -/
+theorem postings_end_to_end (c : Cfg Int (List Int)) (fmt : Fmt) (fb : Rat) (docs : List DocIn) (w : String)
+    (tail : FValue → Bytes) (lenOf : Int → Option Nat)
+    (hids : c.ids = docIds) (hfs : c.fixedsize = fmt.fixedSize) (hbl : 1 ≤ c.blocklimit)
+    (hs : docs.Pairwise (fun a b => a.docnum < b.docnum))
+    (hne : termPostings c.f32 fmt fb docs w ≠ [])
+    (hni : c.inlinelimit ≤ (termPostings c.f32 fmt fb docs w).length ∨
+      c.blocklimit < (termPostings c.f32 fmt fb docs w).length)
+    (hvalid : ∀ d ∈ docs, 0 ≤ d.docnum ∧ d.docnum < 4294967296)
+    (hu : LengthsUniform (toPostings tail lenOf (termPostings c.f32 fmt fb docs w))) :
+    ∃ bs b ti, writeTerm c (toPostings tail lenOf (termPostings c.f32 fmt fb docs w)) = .ok (bs ++ [b], ti) ∧
+      decodeBlocks c.ids c.fixedsize (bs ++ [b])
+        = .ok ((toPostings tail lenOf (termPostings c.f32 fmt fb docs w)).map (expected c)) ∧
+      Forall2 (PostMatches fmt) (termPostings c.f32 fmt fb docs w) (specPostings fmt fb docs w) := by
+  have hspec := (term_postings_spec c.f32 fmt fb docs w hs).2
+  have hvok := (values_ok c.f32 fmt fb docs w tail lenOf hs).1
+  rw [← hfs] at hvok
+  have hlaw : c.ids.Lawful := by rw [hids]; exact docIds_lawful
+  have hne' : toPostings tail lenOf (termPostings c.f32 fmt fb docs w) ≠ [] := by
+    intro e; apply hne; simpa [toPostings] using e
+  have hlen : (toPostings tail lenOf (termPostings c.f32 fmt fb docs w)).length
+      = (termPostings c.f32 fmt fb docs w).length := by simp [toPostings]
+  have hval : ∀ p ∈ toPostings tail lenOf (termPostings c.f32 fmt fb docs w), c.ids.valid p.id = true := by
+    intro q hq
+    simp only [toPostings, List.mem_map] at hq
+    obtain ⟨p, hp, rfl⟩ := hq
+    rw [termPostings_eq c.f32 fmt fb docs w hs, List.mem_filterMap] at hp
+    obtain ⟨d, hd, hp'⟩ := hp
+    have := hvalid d hd
+    rw [hids]
+    simp only [docIds, (docPost_docnum hp').1, Bool.and_eq_true, decide_eq_true_eq]
+    exact this
+  obtain ⟨bs, b, ti, h1, h2, _⟩ := blocks_roundtrip c hlaw _ hbl hne' (by rw [hlen]; exact hni) hval hvok hu
+  exact ⟨bs, b, ti, h1, h2, hspec⟩
+
+example :
+    let d0 : DocIn := ⟨0, 1, [⟨"b", 0, 0, 1, 1⟩, ⟨"a", 1, 2, 3, 1⟩]⟩
+    let d1 : DocIn := ⟨1, 2, [⟨"b", 0, 0, 1, 1⟩, ⟨"b", 3, 4, 5, 1⟩]⟩
+    [d0, d1].Pairwise (fun a b => a.docnum < b.docnum) ∧
+    ([d0, d1].filterMap (docPost id .frequency 1 "b")).map (fun p => (p.docnum, p.weight, p.value))
+      = [(0, 1, .freq 1), (1, 4, .freq 2)] ∧
+    (FValue.freq 2).toBytes (fun _ => []) = [0, 0, 0, 2] := by
+  intro d0 d1
+  refine ⟨by simp [d0, d1], by decide +kernel, by decide⟩
 
 end WM.C10
